@@ -8,12 +8,17 @@
 //! Exit codes: 0 = property held on everything explored, 1 = violation (with a VIOLATION line),
 //! 2 = harness error (never a VIOLATION line).
 
+mod c07;
+mod c17;
 mod common;
 mod gen;
 mod hist_engine;
 mod histsim;
+mod iosim;
+mod kygen;
 mod mmodel;
 mod obs;
+mod procsim;
 mod rng;
 
 use std::io::Write;
@@ -56,6 +61,15 @@ fn runs_for(property: &str, tier: Tier) -> u64 {
         ("C05", Tier::Thorough) => 30_000_000,
         ("C08", Tier::Quick) => 200_000,
         ("C08", Tier::Thorough) => 20_000_000,
+        ("C07", Tier::Tiny) => 40,
+        ("C07", Tier::Quick) => 4_000,
+        ("C07", Tier::Thorough) => 300_000,
+        ("C17", Tier::Tiny) => 20,
+        ("C17", Tier::Quick) => 800,
+        ("C17", Tier::Thorough) => 40_000,
+        ("C20", Tier::Tiny) => 200,
+        ("C20", Tier::Quick) => 8_000,
+        ("C20", Tier::Thorough) => 200_000,
         _ => 1000,
     }
 }
@@ -79,6 +93,9 @@ fn worker_main(args: &[String]) {
     obs::install_quiet_hook();
     let sum = match property {
         "C05" | "C08" => hist_engine::worker(property, seed, start, end, &mut progress, keep),
+        "C07" => c07::worker(seed, start, end, &mut progress, keep),
+        "C17" => c17::worker(seed, start, end, &mut progress, keep),
+        "C20" => procsim::worker(seed, start, end, &mut progress, keep),
         _ => harness_error("worker: unknown property"),
     };
     std::fs::write(&out, serde_json::to_vec(&sum).unwrap()).unwrap();
@@ -113,6 +130,39 @@ fn prop_info(property: &str) -> PropInfo {
             assumptions: vec![
                 "op-level interleavings only in the plain build; sub-operation interleavings come from the Miri tier (thorough)",
                 "tag_candidates() is observed only after fill_tags with a tagging, score-storing predictor that has at least one tag slot",
+            ],
+        },
+        "C07" => PropInfo {
+            level: "fault_enumeration",
+            rule: "one case = one (model, scenario, fault point or schedule) encode/decode attempt; per model every byte offset is enumerated as a crash point for failing writes (+restart on the accepted bytes), truncated reads (whole / chunked reader / slice) and hard read errors; headers, benign short/interrupted schedules, trailing bytes and texts are seeded. Non-trivial = an attempt in which a fault actually fired; distinct = counted once per distinct model (keyed by the hash of its serialisation), so distinct_nontrivial = sum over distinct models of their faulted attempts",
+            real: vec!["Model::{to_vec, write, read, read_slice}", "bincode encode/decode", "Predictor built from the re-read model", "std::io::BufReader"],
+            stubs: vec!["FaultyReader / FaultyWriter (simulated Read / Write endpoints executing an explicit fault schedule)"],
+            assumptions: vec![
+                "models are generated as bytes with mirror structs of ModelData (Model has no public constructor); the generator's well-formedness checker guards it",
+                "bit flips, reordered or lost writes and hostile length prefixes are deliberately not injected: the format has no checksum and the property does not promise their detection",
+                "exhaustive per model over crash points; models themselves are sampled",
+            ],
+        },
+        "C17" => PropInfo {
+            level: "fault_enumeration",
+            rule: "one case = one (KyTea file, scenario, fault point or schedule) read+convert attempt; per file every byte offset is enumerated as truncation point (slice / chunked BufRead / BufReader) and as hard-error point; read schedules are seeded. Non-trivial = a fault fired; distinct = counted once per distinct file (hash of its bytes): distinct_nontrivial = sum over distinct files of their faulted attempts",
+            real: vec!["KyteaModel::read", "TryFrom<KyteaModel> for Model", "Model::to_vec / read_slice", "Predictor on the converted model", "std::io::BufReader"],
+            stubs: vec!["FaultyReader / FaultyBufRead (simulated Read / BufRead endpoints)", "harness-side KyTea file writer (generator)"],
+            assumptions: vec![
+                "K1 (conversion equals the generator's ground truth) is an input-quantified clause riding along as the workload's functional oracle; its coverage is that of the file generator",
+                "prefixes that only cut bytes the reader never consumes parse to the identical model; they are counted, not flagged",
+            ],
+        },
+        "C20" => PropInfo {
+            level: "exploration",
+            rule: "one case = one seeded process run of the real predict/evaluate binary (generated model, flag set, stdin stream of 0..12 lines, interposer seed or none; 30 % of predict cases also run the opposite normalisation mode on normaliser fixed points); non-trivial = the interposer actually fired (short read/write, EINTR) or the stream contains an empty/rejected line; distinct = distinct fingerprints (hash of tool, argv, per-line class sequence and the interposer's decision-trace hash)",
+            real: vec!["target/release/predict and evaluate built from the current tree (clap, zstd, std::io buffering, main loops)", "vaporetto + vaporetto_rules inside the tools", "reference pipeline: the library on fresh sentences, in-process"],
+            stubs: vec!["read(2)/write(2)/writev(2) as seen by the tool: LD_PRELOAD interposer shim/iofault.c (short counts, EINTR; fd 2 untouched)"],
+            assumptions: vec![
+                "the layout of score and tag-score blocks is defined as what the normalising mode prints on the pinned tree (also the README layout) and demanded unchanged under --no-norm; a metamorphic mode-pair check backs this independently of layout constants",
+                "blocks are expected only for accepted lines; --tag-scores without --predict-tags may be answered by a clean usage error",
+                "only benign stream nondeterminism is injected (chunking, EINTR, short writes); the statement says nothing about hard I/O errors",
+                "stdin, stdout and the model are regular files, so every short count and EINTR comes from the interposer; the tools are single-threaded",
             ],
         },
         _ => harness_error("unknown property"),
@@ -154,6 +204,7 @@ fn check_main(args: &[String]) {
                 prog.to_str().unwrap(),
                 if digests_out.is_some() { "1" } else { "0" },
             ])
+            .env("VERIF_SCRATCH", &scratch)
             .spawn()
             .unwrap_or_else(|e| harness_error(&format!("cannot spawn worker: {e}")));
         children.push((k, start, end, out, prog, child));
@@ -201,15 +252,12 @@ fn abort_triage(property: &str, seed: u64, run: u64, how: &str) -> ViolationRec 
     let exe = std::env::current_exe().unwrap();
     let st = Command::new(&exe).args(["exec-run", property, &seed.to_string(), &run.to_string()]).status();
     let confirmed = st.map(|s| !s.success() && s.code() != Some(1) && s.code() != Some(2)).unwrap_or(false);
-    let plan = match property {
-        "C05" | "C08" => serde_json::to_value(hist_engine::plan_for(property, seed, run, false)).unwrap(),
-        _ => json!(null),
-    };
+    let plan = plan_value(property, seed, run);
     let path = replay_path(property, seed, run, "-abort");
     let class = "process-abort".to_string();
     let rf = ReplayFile {
         property: property.to_string(),
-        engine: "histsim".into(),
+        engine: engine_of(property).into(),
         verif_seed: seed,
         run,
         class: class.clone(),
@@ -275,7 +323,7 @@ fn finish(property: &str, tier: Tier, seed: u64, info: &PropInfo, mut sum: Summa
         "property={property} runs={} steps={} distinct_nontrivial={} states={} transitions={} wall={:.1}s",
         sum.runs,
         sum.steps,
-        sum.fingerprints.len(),
+        sum.fingerprints.len() as u64 + sum.weighted_distinct.values().sum::<u64>(),
         sum.states.len(),
         sum.transitions.len(),
         wall
@@ -313,6 +361,9 @@ fn replay_main(args: &[String]) {
     println!("replaying property={} engine={} class={} seed={} run={}", rf.property, rf.engine, rf.class, rf.verif_seed, rf.run);
     let r = match rf.engine.as_str() {
         "histsim" => hist_engine::replay(&rf),
+        "iosim-c07" => c07::replay(&rf),
+        "iosim-c17" => c17::replay(&rf),
+        "procsim" => procsim::replay(&rf),
         _ => harness_error("unknown engine in replay file"),
     };
     match r {
@@ -353,7 +404,45 @@ fn exec_run_main(args: &[String]) {
                 hist_engine::PlanResult::HarnessError(_) => std::process::exit(2),
             }
         }
+        "C07" => {
+            let plan = c07::plan_for(seed, run, &c07::real_files());
+            std::process::exit(if c07::execute(&plan).0.is_some() { 1 } else { 0 })
+        }
+        "C17" => {
+            let plan = c17::plan_for(seed, run, &c17::real_files());
+            std::process::exit(if c17::execute(&plan).0.is_some() { 1 } else { 0 })
+        }
+        "C20" => {
+            let plan = procsim::plan_for(seed, run);
+            match procsim::Env::from_env().and_then(|env| procsim::execute(&env, &plan)) {
+                Ok((None, _)) => std::process::exit(0),
+                Ok((Some(_), _)) => std::process::exit(1),
+                Err(e) => {
+                    eprintln!("HARNESS-ERROR: {e}");
+                    std::process::exit(2)
+                }
+            }
+        }
         _ => std::process::exit(2),
+    }
+}
+
+fn plan_value(property: &str, seed: u64, run: u64) -> serde_json::Value {
+    match property {
+        "C05" | "C08" => serde_json::to_value(hist_engine::plan_for(property, seed, run, false)).unwrap(),
+        "C07" => serde_json::to_value(c07::plan_for(seed, run, &c07::real_files())).unwrap(),
+        "C17" => serde_json::to_value(c17::plan_for(seed, run, &c17::real_files())).unwrap(),
+        "C20" => serde_json::to_value(procsim::plan_for(seed, run)).unwrap(),
+        _ => json!(null),
+    }
+}
+
+fn engine_of(property: &str) -> &'static str {
+    match property {
+        "C05" | "C08" => "histsim",
+        "C07" => "iosim-c07",
+        "C17" => "iosim-c17",
+        _ => "procsim",
     }
 }
 
@@ -367,6 +456,10 @@ fn main() {
         "worker" => worker_main(&args[1..]),
         "replay" => replay_main(&args[1..]),
         "exec-run" => exec_run_main(&args[1..]),
+        "show" => {
+            let v = plan_value(&args[1], args[2].parse().unwrap(), args[3].parse().unwrap());
+            println!("{}", serde_json::to_string_pretty(&v).unwrap());
+        }
         _ => harness_error("unknown command"),
     }
 }
